@@ -15,6 +15,12 @@ CLAIMED = {
    design='5 C20'),
 }
 
+CLAIMED['C16'] = dict(
+   category='proof',
+   text="PROOF, unbounded: pop_front_unichar (decoder) and validate_mqtt_utf8_char are verified, loop-free and for every byte window at any buffer position, equal to a reference written from Unicode Table 3-7 and MQTT 5 1.5.4; the four validate_impl uses (UTF-8 string, topic name, alias name, share name), validate_topic_filter, validate_shared_topic_filter and is_valid_string_pair are verified for strings of EVERY length (loop contracts, prophecy ghost for the fold) to accept exactly the strings the reference recogniser accepts (size limits 0/1/65535, wildcard placement [MQTT-4.7.1-1/2], $share form [MQTT-4.8.2]). Thorough adds an exhaustive native differential run of the real validators against an independent code-point-level reference. The API-level half (where publish/subscribe apply the validators and that rejected requests send nothing) is carried by C15's carriers when built.",
+   note="Assumes: clang AST = compiled program; cxx2c; models/std.h string_view model (operator[], remove_prefix/suffix, substr, compare; find_first_of as an assumed contract at a ghost index); definitional unfoldings of the prophecy ghost g_a (ghost-ensures of pop_front_unichar, present only where it is replaced by its contract); spec/utf8_ref.h as a correct reading of Unicode/MQTT; CBMC + cvc5 (SAT array theory does not finish on the symbolic-size buffer) + cadical.",
+   design='5 C16')
+
 NOT_APPLICABLE = {
  'C02': "liveness under fairness over unbounded fault sequences ('eventually completes once the broker stays reachable'): a function contract cannot state 'eventually', and there is no CBMC model of Boost.Asio scheduling; its function-local safety crumbs are carried under C03/C05 (DESIGN 5 C02)",
 }
@@ -40,7 +46,7 @@ def main():
     m = dict(version=1,
              setup_cmd='sh tools/setup.sh',
              hooks=dict(guard='BOOST_MQTT5_VERIF', enable='no hooks: contracts are sidecars in /verif/contracts, extraction reads /repo/include as it is (clang++ -fsyntax-only -Xclang -ast-dump=json), replay drivers use -fno-access-control',
-                        baseline_off_cmd='cmake --build /repo/_build -j16 && ctest --test-dir /repo/_build -j8 --timeout 900',
+                        baseline_off_cmd='cmake --build /repo/_build -j16 && ctest --test-dir /repo/_build/test -j8 --timeout 900',
                         source_commits=[], add_only=True),
              engines=[dict(name='cxx2c+cbmc-contracts', path='/verif/tools', serves_properties=sorted(CLAIMED),
                            kind_free_text='contract-based deductive verification: clang JSON AST -> C emitter (tools/cxx2c.py) -> sidecar contracts (contracts/*.spec) -> goto-cc / goto-instrument --dfcc / cbmc --sat-solver cadical; native replay drivers under replay/')],
